@@ -11,4 +11,12 @@ package xpair1
 //@   lock Mutex level 20
 //@   guarded_by Mutex: closed sizeQ peer recvQLen sendQLen ttl recvExpire sendExpire bestEffort recvQ sendQ
 //@   immutable: closeQ
+//@   invariant 1 <= ttl && ttl <= 255
+//@   invariant sendQLen >= 0
 //@
+//@ func (*pipe).receiver
+//@   ghost body0 = result.Body at call:RecvMsg#1
+//@   at call:Free#1 assert len(body0) < 4
+//@   at call:Free#2 assert len(body0) >= 4 && (be32(body0) >= 255 || be32(body0) > s.ttl)
+//@   at select#1 assert selidx == 0 ==> len(body0) >= 4 && be32(body0) < 255 && be32(body0) <= s.ttl
+//@   at select#1 assert selidx == 0 ==> len(m.Header) >= 4 && m.Header[3] == be32(body0) + 1
